@@ -246,12 +246,27 @@ def step_value(tl, cs, t):
     return cs[i] if i < len(cs) else 0
 
 
+def is_const(ch):
+    """a channel given as `coeff=True/False` (with or without a tlist of its own)"""
+    return isinstance(ch["coeff"], bool)
+
+
+def chan_value(ch, t):
+    """the STATED coefficient of a channel at the real time t.  An array is the step function of its grid.  A bool is 'a
+    constant 1 or 0' (Pulse docstring) for the whole evolution: its tlist only contributes points to the merged grid -
+    that is what all four observables of the code as found do (resampled coefficients, analytical propagators, solver,
+    save/reload)."""
+    if is_const(ch):
+        return 1.0 if ch["coeff"] else 0.0
+    return step_value(ch["tlist"], ch["coeff"], t)
+
+
 def herm(rng_np, d):
     a = rng_np.normal(size=(d, d)) + 1j * rng_np.normal(size=(d, d))
     return (a + a.conj().T) / 2
 
 
-def make_spec(rng, full_prob=0.3, last_zero=True, nsub=None):
+def make_spec(rng, full_prob=0.3, last_zero=True, nsub=None, const=None):
     """a random processor: dims, optional drift, 1-4 controls, independent non-uniform grids"""
     nsub = nsub or rng.randint(1, 3)
     dims = [rng.choice([2, 3]) for _ in range(nsub)]
@@ -276,7 +291,114 @@ def make_spec(rng, full_prob=0.3, last_zero=True, nsub=None):
     if rng.random() < 0.6:
         k = rng.randint(1, min(2, nsub))
         drift = {"targets": rng.sample(range(nsub), k)}
-    return {"dims": dims, "seed": seed, "chans": chans, "drift": drift, "dm": rng.random() < 0.4}
+    spec = {"dims": dims, "seed": seed, "chans": chans, "drift": drift, "dm": rng.random() < 0.4}
+    if (rng.random() < 0.3) if const is None else const:
+        add_const_channel(rng, spec)
+    return spec
+
+
+CONST_SHAPES = ["ends-early", "ends-last", "starts-late", "same-end", "no-tlist"]
+
+
+def add_const_channel(rng, spec, shape=None, value=None):
+    """insert one channel given as `coeff=True` / `coeff=False`: with a tlist of its own that ends before / after / with the
+    array channels or starts after 0, or without tlist"""
+    nsub = len(spec["dims"])
+    T = max(ch["tlist"][-1] for ch in spec["chans"] if not is_const(ch))
+    shape = shape or rng.choice(CONST_SHAPES + ["ends-early"])
+    if shape == "ends-early":
+        tl = [0.0] + sorted(rng.uniform(0.05, 0.85) * T for _ in range(rng.randint(1, 3)))
+    elif shape == "ends-last":
+        tl = [0.0, rng.uniform(0.1, 0.9) * T, rng.uniform(1.1, 1.5) * T]
+    elif shape == "starts-late":
+        tl = sorted(rng.uniform(0.15, 0.9) * T for _ in range(rng.randint(2, 3)))
+    elif shape == "same-end":
+        tl = [0.0, float(T)]
+    else:
+        tl = None
+    val = (rng.random() < 0.8) if value is None else bool(value)
+    ch = {"targets": rng.sample(range(nsub), rng.randint(1, min(2, nsub))), "tlist": tl, "coeff": val}
+    spec["chans"].insert(rng.randint(0, len(spec["chans"])), ch)
+    return spec
+
+
+ROUNDING_FORMS = ["cumsum", "literal", "multiple", "right-assoc", "linspace"]
+
+
+def rounded_points(form, ks, unit):
+    """the breakpoints sum(ks[:j]) / unit, j = 0..n, computed in floating point in one of several customary ways: the
+    results are equal as real numbers up to rounding errors of a few ulp, not bitwise"""
+    n = len(ks)
+    if form == "cumsum":                  # accumulated durations: ((d1 + d2) + d3) + ...
+        out, t = [0.0], 0.0
+        for k in ks:
+            t = t + k / unit
+            out.append(t)
+        return out
+    if form == "literal":                 # the correctly rounded decimal, as typed in
+        return [float(F(sum(ks[:j]), unit)) for j in range(n + 1)]
+    if form == "multiple":                # k * 0.1
+        return [sum(ks[:j]) * (1.0 / unit) for j in range(n + 1)]
+    if form == "right-assoc":             # d1 + (d2 + (d3 + ...))
+        out = [0.0]
+        for j in range(1, n + 1):
+            t = 0.0
+            for k in reversed(ks[:j]):
+                t = k / unit + t
+            out.append(t)
+        return out
+    if form == "linspace":                # total * (position / total)
+        tot = sum(ks)
+        return [float(x) for x in (np.array([sum(ks[:j]) for j in range(n + 1)], dtype=float) / tot) * (tot / unit)]
+    raise ValueError(form)
+
+
+def make_rounding_spec(rng, nsub=None):
+    """`_rounding_spec`, preferring (3 of 4) specs in which two channel ends are equal but not bitwise"""
+    want = rng.random() < 0.75
+    for _ in range(6):
+        spec = _rounding_spec(rng, nsub)
+        if not want or "ends=equal-not-bitwise" in rounding_tags(spec):
+            break
+    return spec
+
+
+def _rounding_spec(rng, nsub=None):
+    """step channels whose breakpoints and END POINTS coincide as real numbers but not bitwise: all channels share the
+    exact breakpoints P_j = (k_1 + ... + k_j)/unit (decimal fractions); every channel computes the ones it uses in its
+    own way (cumsum of durations, typed-in decimals, k*0.1, another association order, scaled linspace), keeps a subset
+    of the interior ones and ends at the common end (or, sometimes, at an interior breakpoint of the others).  Every
+    coefficient, the last one in particular, is non-zero."""
+    nsub = nsub or rng.randint(1, 2)
+    dims = [rng.choice([2, 3]) for _ in range(nsub)]
+    unit = rng.choice([10, 10, 10, 100, 20, 1000])
+    n = rng.randint(2, 5)
+    ks = [rng.randint(1, 9) for _ in range(n)]
+    nch = rng.randint(2, 4)
+    forms = [rng.choice(ROUNDING_FORMS) for _ in range(nch)]
+    if len(set(forms[:2])) == 1:
+        forms[1] = rng.choice([f for f in ROUNDING_FORMS if f != forms[0]])
+    chans = []
+    for i, form in enumerate(forms):
+        pts = rounded_points(form, ks, unit)
+        last = n if (i < 2 or rng.random() < 0.7) else rng.randint(1, n)          # the first two end together
+        keep = [0] + [j for j in range(1, last) if rng.random() < 0.6] + [last]
+        tl = [pts[j] for j in keep]
+        cs = [rng.choice([-1, 1]) * rng.uniform(0.3, 2.0) for _ in range(len(tl) - 1)]
+        chans.append({"targets": rng.sample(range(nsub), rng.randint(1, min(2, nsub))), "tlist": tl, "coeff": cs})
+    drift = {"targets": rng.sample(range(nsub), rng.randint(1, min(2, nsub)))} if rng.random() < 0.6 else None
+    return {"dims": dims, "seed": rng.randrange(2**31), "chans": chans, "drift": drift, "dm": rng.random() < 0.3,
+            "rounding": {"unit": unit, "ks": ks, "forms": forms}}
+
+
+def rounding_tags(spec):
+    """which coincidences of the spec are not bitwise"""
+    ends = [ch["tlist"][-1] for ch in spec["chans"] if not is_const(ch)]
+    top = max(ends)
+    near = sorted({e for e in ends if e != top and abs(e - top) < 1e-9})
+    pts = sorted({t for ch in spec["chans"] if ch.get("tlist") is not None for t in ch["tlist"]})
+    inner = any(0 < b - a < 1e-9 for a, b in zip(pts[:-1], pts[1:]) if b < top - 1e-9)
+    return ["ends=" + ("equal-not-bitwise" if near else "bitwise-equal-or-apart"), "interior-coincidence-not-bitwise=" + str(inner)]
 
 
 def build_processor(spec, labels=None):
@@ -305,8 +427,11 @@ def build_processor(spec, labels=None):
 
 
 def load_pulses(p, labels, spec):
-    p.set_coeffs({lab: np.array(ch["coeff"], dtype=float) for lab, ch in zip(labels, spec["chans"])})
-    p.set_tlist({lab: np.array(ch["tlist"], dtype=float) for lab, ch in zip(labels, spec["chans"])})
+    """set_coeffs builds Pulse(ham, targets, coeff=..., label=...) per channel (coeff an array, or True / False for a
+    constant channel), set_tlist gives every channel that has one its own tlist"""
+    chans = list(zip(labels, spec["chans"]))
+    p.set_coeffs({lab: (bool(ch["coeff"]) if is_const(ch) else np.array(ch["coeff"], dtype=float)) for lab, ch in chans})
+    p.set_tlist({lab: np.array(ch["tlist"], dtype=float) for lab, ch in chans if ch.get("tlist") is not None})
 
 
 def embed(M, targets, dims):
@@ -332,7 +457,8 @@ def reference_U(grid, spec, drift_full, mats):
     for a, b in zip(grid[:-1], grid[1:]):
         H = drift_full.copy()
         for ch, M in zip(spec["chans"], mats):
-            H = H + step_value(ch["tlist"], ch["coeff"], a) * M
+            # value inside the slice (the grid contains every breakpoint, up to rounding: evaluated at the midpoint)
+            H = H + chan_value(ch, 0.5 * (a + b)) * M
         U = sla.expm(-1j * H * (b - a)) @ U
     return U
 
@@ -370,7 +496,7 @@ def solver_final(p, psi, dm, tlist):
 
 
 def union_grid(spec):
-    return sorted({t for ch in spec["chans"] for t in ch["tlist"]})
+    return sorted({t for ch in spec["chans"] if ch.get("tlist") is not None for t in ch["tlist"]})
 
 
 # ----------------------------------------------------------------------------------------------
@@ -384,6 +510,8 @@ def ref_spline(tl, cs):
 
 def ref_cubic_value(ch, sp, t):
     """spline inside the channel's range; outside the resampling of the code (and this reference) is 0"""
+    if is_const(ch):                 # `coeff=True/False`: constant for the whole evolution
+        return 1.0 if ch["coeff"] else 0.0
     tl = ch["tlist"]
     if tl[0] <= t <= tl[-1]:
         return float(sp(t))
@@ -392,7 +520,7 @@ def ref_cubic_value(ch, sp, t):
     return 0.0
 
 
-def make_cubic_spec(rng, same_end=None, counts=None):
+def make_cubic_spec(rng, same_end=None, counts=None, const=None):
     nsub = rng.randint(1, 2)
     dims = [rng.choice([2, 3]) for _ in range(nsub)]
     nch = len(counts) if counts else rng.randint(1, 3)
@@ -416,8 +544,12 @@ def make_cubic_spec(rng, same_end=None, counts=None):
         k = rng.randint(1, min(2, nsub))
         chans.append({"targets": rng.sample(range(nsub), k), "tlist": tl, "coeff": cs})
     drift = {"targets": rng.sample(range(nsub), rng.randint(1, min(2, nsub)))} if rng.random() < 0.6 else None
-    return {"dims": dims, "seed": rng.randrange(2**31), "chans": chans, "drift": drift, "dm": rng.random() < 0.3,
+    spec = {"dims": dims, "seed": rng.randrange(2**31), "chans": chans, "drift": drift, "dm": rng.random() < 0.3,
             "spline": "cubic"}
+    if (rng.random() < 0.3) if const is None else const:
+        # unrepaired tree: a spline channel that ends before the evolution does must have a zero last sample (see above)
+        add_const_channel(rng, spec, shape=rng.choice([x for x in CONST_SHAPES if flags()["hold"] or x != "ends-last"]))
+    return spec
 
 
 def cubic_family():
@@ -442,7 +574,7 @@ def cubic_family():
 def ref_cubic_state(spec, drift_full, mats, v, t_end):
     """independent integration of i y' = H(t) y with H = drift + sum spline_k(t) control_k"""
     from scipy.integrate import solve_ivp
-    sps = [ref_spline(ch["tlist"], ch["coeff"]) for ch in spec["chans"]]
+    sps = [None if is_const(ch) else ref_spline(ch["tlist"], ch["coeff"]) for ch in spec["chans"]]
 
     def rhs(t, y):
         H = drift_full.copy()
@@ -450,7 +582,7 @@ def ref_cubic_state(spec, drift_full, mats, v, t_end):
             H = H + ref_cubic_value(ch, sp, t) * M
         return -1j * (H @ y)
 
-    ends = sorted({ch["tlist"][-1] for ch in spec["chans"]})
+    ends = sorted({ch["tlist"][-1] for ch in spec["chans"] if ch.get("tlist") is not None} | {float(t_end)})
     y, t0 = np.asarray(v, dtype=complex), 0.0
     for t1 in ends:                     # restart at the kinks (channel ends)
         if t1 > t0:
@@ -463,11 +595,11 @@ def cubic_exact_reload(spec):
     """reloading installs, for every channel, the spline through its values on the merged grid; that is the same
     function when all channels end together and every channel is a single polynomial piece (<= 4 samples) or
     already lives on the merged grid"""
-    ends = {ch["tlist"][-1] for ch in spec["chans"]}
-    merged = sorted({t for ch in spec["chans"] for t in ch["tlist"]})
-    if len(ends) != 1 or len(merged) < 4:
+    merged = union_grid(spec)
+    arrays = [ch for ch in spec["chans"] if not is_const(ch)]         # a constant channel reloads as the spline through ones
+    if len(merged) < 4 or any(ch["tlist"][-1] != merged[-1] or ch["tlist"][0] != merged[0] for ch in arrays):
         return False
-    return all(len(ch["tlist"]) <= 4 or sorted(ch["tlist"]) == merged for ch in spec["chans"])
+    return all(len(ch["tlist"]) <= 4 or sorted(ch["tlist"]) == merged for ch in arrays)
 
 
 def check_cubic(spec, solver=True, full=False):
@@ -475,13 +607,14 @@ def check_cubic(spec, solver=True, full=False):
     `full`: also judge the solver against the resampled coefficients past a channel's end."""
     p, labels, drift_full, mats = build_processor(spec)
     load_pulses(p, labels, spec)
-    sps = [ref_spline(ch["tlist"], ch["coeff"]) for ch in spec["chans"]]
+    sps = [None if is_const(ch) else ref_spline(ch["tlist"], ch["coeff"]) for ch in spec["chans"]]
+    arrays = [ch for ch in spec["chans"] if not is_const(ch)]
     try:
         T = np.asarray(p.get_full_tlist(), dtype=float)
         C = np.asarray(p.get_full_coeffs(), dtype=float)
     except Exception as e:
         return f"get_full_tlist/get_full_coeffs raised {type(e).__name__}: {e}"
-    union = sorted({t for ch in spec["chans"] for t in ch["tlist"]})
+    union = union_grid(spec)
     if len(T) != len(union) or np.abs(T - np.array(union)).max() > 0:
         return "get_full_tlist is not the sorted union of the channel grids"
     ref = np.array([[ref_cubic_value(ch, sp, t) for t in T] for ch, sp in zip(spec["chans"], sps)])
@@ -491,6 +624,9 @@ def check_cubic(spec, solver=True, full=False):
     bad = np.argwhere(np.abs(C - ref) > 1e-9 * scale)
     if len(bad):
         m, k = bad[0]
+        if is_const(spec["chans"][m]):
+            return (f"get_full_coeffs: channel {m} (coeff={spec['chans'][m]['coeff']}, tlist {spec['chans'][m].get('tlist')!r}) at "
+                    f"t={float(T[k])!r} is {float(C[m][k])!r}, a constant pulse is {float(ref[m][k])!r}")
         return (f"get_full_coeffs: channel {m} ({len(spec['chans'][m]['tlist'])} samples) at t={float(T[k])!r} is {float(C[m][k])!r}, "
                 f"the spline through its samples is {float(ref[m][k])!r}")
     # run_analytically: slice k holds the coefficients at T_k
@@ -513,7 +649,7 @@ def check_cubic(spec, solver=True, full=False):
     except Exception as e:
         return f"get_qobjevo raised {type(e).__name__}: {e}"
     for k, t in enumerate(T):
-        inside = flags()["hold"] or all(ch["tlist"][-1] >= t or ch["coeff"][-1] == 0 for ch in spec["chans"])
+        inside = flags()["hold"] or all(ch["tlist"][-1] >= t or ch["coeff"][-1] == 0 for ch in arrays)
         if not (inside or full):
             continue
         Hs = qu(float(t)).full()
@@ -523,7 +659,7 @@ def check_cubic(spec, solver=True, full=False):
                     f"by {np.abs(Hs - Hc).max():.3e}")
     psi, v = init_state(spec)
     yref = None
-    held = flags()["hold"] or all(ch["tlist"][-1] == T[-1] or ch["coeff"][-1] == 0 for ch in spec["chans"])
+    held = flags()["hold"] or all(ch["tlist"][-1] == T[-1] or ch["coeff"][-1] == 0 for ch in arrays)
     if solver and held:
         yref = ref_cubic_state(spec, drift_full, mats, v, T[-1])
         try:
@@ -580,10 +716,62 @@ def spline_degree_of_code(n, rng):
     return deg
 
 
+def coeffs_mismatch(spec, T, C, exact=False):
+    """get_full_coeffs against the stated coefficients: column k is the value the channel has INSIDE the merged slice
+    [T_k, T_k+1) (evaluated at the midpoint: the merged grid contains every breakpoint up to rounding, so the stated
+    coefficient is constant there), the last column the value just after the end.  -> None or a description"""
+    T = [float(t) for t in T]
+    if np.ndim(C) != 2 or np.shape(C) != (len(spec["chans"]), len(T)):
+        return f"get_full_coeffs has shape {np.shape(C)} for {len(spec['chans'])} channels and {len(T)} merged points"
+    for m, ch in enumerate(spec["chans"]):
+        for k in range(len(T)):
+            t = 0.5 * (T[k] + T[k + 1]) if k + 1 < len(T) else T[k] + 1e-9
+            sv = chan_value(ch, t)
+            if abs(C[m][k] - sv) > (0 if exact else 1e-12):
+                where = (f"on the merged slice [{T[k]!r}, {T[k + 1]!r})" if k + 1 < len(T) else f"at the end point {T[k]!r}")
+                return (f"get_full_coeffs: channel {m} {where} is {float(C[m][k])!r}, its stated coefficient there is {float(sv)!r}"
+                        + (f" (own grid {ch['tlist']!r})" if ch.get("tlist") is not None and len(ch["tlist"]) <= 8 else ""))
+    return None
+
+
+def solver_operator_mismatch(p, spec, T, drift_full, mats):
+    """the operator the solver integrates (get_qobjevo), sampled inside every merged slice, against
+    drift + sum stated coefficient * control.  -> None or a description"""
+    try:
+        qu, _c = p.get_qobjevo(noisy=True)
+    except Exception as e:
+        return f"get_qobjevo raised {type(e).__name__}: {e}"
+    T = [float(t) for t in T]
+    for a, b in zip(T[:-1], T[1:]):
+        t = 0.5 * (a + b)
+        H = drift_full + sum(chan_value(ch, t) * M for ch, M in zip(spec["chans"], mats))
+        err = float(np.abs(qu(t).full() - H).max())
+        if err > 1e-9:
+            return (f"the operator handed to the solver at t={t!r} (inside the merged slice [{a!r}, {b!r})) differs from "
+                    f"drift + sum coefficient * control by {err:.3e}")
+    return None
+
+
 LEAK_WITNESS = {"kind": "evolution", "spec": {
     "dims": [2], "seed": 1, "drift": None, "dm": False,
     "chans": [{"targets": [0], "tlist": [0.0, 1.0], "coeff": [2.0, 0.75]},
               {"targets": [0], "tlist": [0.0, 1.5, 2.0], "coeff": [0.5, 0.25]}]}}
+# two step channels that share the breakpoint 0.3 and the end 0.7 as real numbers: one grid accumulated (0.1 + 0.2 + 0.4 =
+# 0.7000000000000001), one typed in; the channel with the (bitwise) smaller end has a non-zero last coefficient
+ROUNDING_WITNESS = {"kind": "evolution", "spec": {
+    "dims": [2, 2], "seed": 7, "drift": {"targets": [0, 1]}, "dm": False,
+    "chans": [{"targets": [0], "tlist": [0.0, 0.1, 0.1 + 0.2, 0.1 + 0.2 + 0.4], "coeff": [0.9, -1.3, 0.6]},
+              {"targets": [1], "tlist": [0.0, 0.3, 0.7], "coeff": [1.7, -0.8]}]}}
+ROUNDING_WITNESS_2 = {"kind": "evolution", "spec": {
+    "dims": [2], "seed": 8, "drift": None, "dm": True,
+    "chans": [{"targets": [0], "tlist": [0.0, 0.6], "coeff": [1.1]},
+              {"targets": [0], "tlist": [0.0, 2 * 0.1, 6 * 0.1], "coeff": [-0.7, 0.45]},
+              {"targets": [0], "tlist": [0.0, 0.1, 0.1 + 0.2], "coeff": [0.5, -1.25]}]}}
+# a constant pulse with a time range of its own that ends before the evolution does (Pulse docstring), step_func
+CONST_WITNESS = {"kind": "evolution", "spec": {
+    "dims": [2, 2], "seed": 9, "drift": {"targets": [0, 1]}, "dm": False,
+    "chans": [{"targets": [0], "tlist": [0.0, 0.35, 0.8, 1.3], "coeff": [0.9, -1.3, 0.6]},
+              {"targets": [1], "tlist": [0.0, 0.25, 0.5], "coeff": True}]}}
 RUNSTATE_WITNESS = {"kind": "run_state", "spec": {
     "dims": [2], "seed": 1, "drift": None, "dm": False,
     "chans": [{"targets": [0], "tlist": [0.0, 1.0], "coeff": [0.5]}]}}
@@ -676,8 +864,11 @@ class C14(PropertyCheck):
     rule = ("exact stream: case = (1-4 channels with independent strictly increasing dyadic grids starting at 0 and ending at different "
             "times, coefficients of length n-1 or n, absent / constant pulses) for get_full_tlist, _fill_coeff, get_full_coeffs and the "
             "slices; tolerance stream: points 2^-40 or 2^-30 away from points of other channels; numeric stream: processors with 1-3 "
-            "subsystems of dimension 2-3, optional drift, 1-4 random Hermitian controls; non-trivial = at least two channels with "
-            "different grids; malformed inputs and save/reload are counted with their own tags")
+            "subsystems of dimension 2-3, optional drift, 1-4 random Hermitian controls, channels given as coeff=True/False with a tlist "
+            "of their own (ending before / after / with the others, starting late), without tlist or with a scalar tlist; rounding "
+            "stream: channel grids whose breakpoints and end points coincide as real numbers but not bitwise (cumsum of decimal "
+            "durations, typed-in decimals, k*0.1, other association order) with non-zero last coefficients; non-trivial = at least "
+            "two channels with different grids; malformed inputs and save/reload are counted with their own tags")
 
     def regenerate(self, ctx):
         FLAGS.update(detect_flags())
@@ -715,7 +906,10 @@ class C14(PropertyCheck):
             if r < 0.08:
                 chans.append(["n"])
             elif r < 0.16:
-                chans.append(["b", rng.random() < 0.5, g if rng.random() < 0.5 else None])
+                r2 = rng.random()
+                # a bool coefficient: without tlist, with a tlist of its own, or with a SCALAR tlist (np.hstack takes it as
+                # a single point of the merged grid)
+                chans.append(["b", rng.random() < 0.5, (g if r2 < 0.45 else None if r2 < 0.8 else [g[rng.randrange(len(g))]])])
             else:
                 cs = gen_coeffs(rng, len(g), last_zero=rng.random() < 0.7)
                 if malformed and rng.random() < 0.4:
@@ -724,6 +918,9 @@ class C14(PropertyCheck):
         inp = {"chans": [[c[0]] + ([bool(c[1]), None if c[2] is None else [fs(x) for x in c[2]]] if c[0] == "b" else
                                    ([[fs(x) for x in c[1]], [fs(x) for x in c[2]]] if c[0] == "a" else [])) for c in chans]}
         tags = ["stream=" + ("malformed" if malformed else "tolerance" if tolstream else "exact"), f"channels={nch}"]
+        for c in chans:
+            if c[0] == "b":
+                tags.append("bool channel: " + ("no tlist" if c[2] is None else "scalar tlist" if len(c[2]) == 1 else "own tlist"))
 
         def chs(c):
             if c[0] == "n":
@@ -742,8 +939,8 @@ class C14(PropertyCheck):
             if c[0] == "n":
                 p.add_pulse(Pulse(qutip.sigmax(), 0, label=f"c{i}"))
             elif c[0] == "b":
-                p.add_pulse(Pulse(qutip.sigmax(), 0, tlist=None if c[2] is None else np.array([float(x) for x in c[2]]),
-                                  coeff=bool(c[1]), label=f"c{i}"))
+                tl = None if c[2] is None else (float(c[2][0]) if len(c[2]) == 1 else np.array([float(x) for x in c[2]]))
+                p.add_pulse(Pulse(qutip.sigmax(), 0, tlist=tl, coeff=bool(c[1]), label=f"c{i}"))
             else:
                 p.add_pulse(Pulse(qutip.sigmax(), 0, tlist=np.array([float(x) for x in c[1]]),
                                   coeff=np.array([float(x) for x in c[2]]), label=f"c{i}"))
@@ -893,7 +1090,7 @@ class C14(PropertyCheck):
             if l not in labels:
                 labels.append(l)
         inctime = rng.random() < 0.7
-        spec = make_spec(rng, nsub=1)
+        spec = make_spec(rng, nsub=1, const=False)
         spec["chans"] = (spec["chans"] * 4)[:n]
         spec["chans"] = [dict(c) for c in spec["chans"]]
         inp = {"labels": labels, "inctime": inctime, "chans": len(spec["chans"])}
@@ -961,7 +1158,8 @@ class C14(PropertyCheck):
         over the model's merged grid.  Returns a description of the first mismatch or None."""
         p, labels, drift_full, mats = build_processor(spec)
         load_pulses(p, labels, spec)
-        chs = "!".join(f"a:{fl(F(x) for x in ch['tlist'])}:{fl(F(x) for x in ch['coeff'])}" for ch in spec["chans"])
+        chs = "!".join((f"b:{int(ch['coeff'])}" + ("" if ch.get("tlist") is None else ":" + fl(F(x) for x in ch["tlist"]))) if is_const(ch)
+                       else f"a:{fl(F(x) for x in ch['tlist'])}:{fl(F(x) for x in ch['coeff'])}" for ch in spec["chans"])
         o, tight = self._three(ctx, lambda tol: f"coeffs tol={fs(tol)} chans={chs}")
         if tight or not o.startswith("ok "):
             return "skip"
@@ -974,10 +1172,9 @@ class C14(PropertyCheck):
             return "get_full_tlist differs from the model's merged grid"
         if not all(exact_eq(a, b) for a, b in zip(C, rm)):
             return "get_full_coeffs differs from the model's resampled coefficients"
-        for m, ch in enumerate(spec["chans"]):
-            for k, t in enumerate(Tm):
-                if abs(C[m][k] - step_value(ch["tlist"], ch["coeff"], t)) > 0:
-                    return f"get_full_coeffs[{m}][{k}]={C[m][k]!r} but the step function of channel {m} at {t!r} is {step_value(ch['tlist'], ch['coeff'], t)!r}"
+        d = coeffs_mismatch(spec, Tm, C, exact=True)
+        if d:
+            return d
         Uref = reference_U(Tm, spec, drift_full, mats)
         Ul = p.run_analytically()
         U = np.eye(Uref.shape[0], dtype=complex)
@@ -985,6 +1182,9 @@ class C14(PropertyCheck):
             U = u.full() @ U
         if np.abs(U - Uref).max() > 1e-9:
             return f"run_analytically differs from the ordered expm product by {np.abs(U - Uref).max():.3e}"
+        d = solver_operator_mismatch(p, spec, Tm, drift_full, mats)
+        if d:
+            return d
         if check_solver:
             psi, v = init_state(spec)
             fin, how, err = solver_final(p, psi, spec.get("dm"), T)
@@ -1037,19 +1237,43 @@ class C14(PropertyCheck):
             self._labels_case(ctx, res, rng, malformed=(i % 4 == 3))
         nnum = 40 * k
         solver_how = set()
-        for i in range(nnum):
-            spec = make_spec(rng, last_zero=not flags()["zl"])
+        stream = [(make_spec(rng, last_zero=not flags()["zl"], const=(i % 4 == 3)), []) for i in range(nnum)]
+        # channels given as coeff=True / coeff=False: every shape of own tlist x both values next to two array channels
+        nconst = 0
+        for shape in CONST_SHAPES:
+            for val in (True, False):
+                spec = make_spec(rng, last_zero=not flags()["zl"], nsub=rng.randint(1, 2), const=False)
+                spec["chans"] = spec["chans"][:2]
+                add_const_channel(rng, spec, shape=shape, value=val)
+                stream.append((spec, []))
+                nconst += 1
+        # channel grids that coincide as real numbers but not bitwise (outside the exact dyadic stream)
+        nround = 0
+        for spec in [dict(ROUNDING_WITNESS["spec"]), dict(ROUNDING_WITNESS_2["spec"])] + [make_rounding_spec(rng) for _ in range(28 * k)]:
+            stream.append((spec, ["rounding"] + rounding_tags(spec)))
+            nround += 1
+        for spec, extra in stream:
             tags = ["numeric", f"subsystems={len(spec['dims'])}", f"channels={len(spec['chans'])}",
-                    "state=" + ("dm" if spec["dm"] else "ket"), "drift=" + str(bool(spec["drift"]))]
+                    "state=" + ("dm" if spec["dm"] else "ket"), "drift=" + str(bool(spec["drift"]))] + extra
+            for c in spec["chans"]:
+                if is_const(c):
+                    tags.append(f"constant channel coeff={c['coeff']}, " + ("no tlist" if c.get("tlist") is None else "own tlist"))
             try:
                 d = self._numeric_case(ctx, res, spec, tags)
             except Exception as e:
                 d = "implementation raised " + type(e).__name__ + ": " + str(e)[:200]
-            res.case({"numeric": spec}, nontrivial=len({tuple(c["tlist"]) for c in spec["chans"]}) >= 2, tags=tags)
+            if d == "skip":
+                tags.append("numeric-skipped (tolerance-tight or refused)")
+            res.case({"numeric": spec}, nontrivial=len({tuple(c.get("tlist") or ()) for c in spec["chans"]}) >= 2, tags=tags)
             solver_how |= {t for t in tags if t.startswith("solver=")}
             if d and d != "skip":
                 res.disagree({"numeric": spec}, "ordered expm product over the model's merged grid", d, d,
                              {"kind": "evolution", "spec": spec})
+        res.notes.append(f"numeric stream: {nnum} random processors (every fourth with a channel given as coeff=True/False), {nconst} "
+                         f"with a constant channel of every shape (own tlist ending before / after / with the others, starting late, "
+                         f"no tlist) x both values, {nround} with channel grids whose breakpoints and end points coincide as real "
+                         "numbers but not bitwise (cumsum of decimal durations, typed-in decimals, k*0.1, other association order, "
+                         "scaled linspace; non-zero last coefficients)")
         # cubic coefficients (numeric, partial): model = degree of the interpolant per sample count; the oracle's reference
         ncub = 0
         for n in range(0, 9):
@@ -1062,15 +1286,15 @@ class C14(PropertyCheck):
                 res.disagree(inp, md, cd, f"degree of the interpolant _fill_coeff uses for {n} samples "
                              "(largest degree of polynomials reproduced off the grid)",
                              {"kind": "cubic", "spec": cubic_family()[2 if n == 3 else 0]})
-        specs = cubic_family() + [make_cubic_spec(rng) for _ in range(16 * k)]
+        specs = cubic_family() + [make_cubic_spec(rng, const=(i % 3 == 2)) for i in range(16 * k)]
         for i, spec in enumerate(specs):
-            tags = ["cubic", "samples=" + ",".join(str(len(c["tlist"])) for c in spec["chans"]),
-                    "ends=" + ("same" if len({c["tlist"][-1] for c in spec["chans"]}) == 1 else "different")]
+            tags = ["cubic", "samples=" + ",".join(("const" if is_const(c) else str(len(c["tlist"]))) for c in spec["chans"]),
+                    "ends=" + ("same" if len({c["tlist"][-1] for c in spec["chans"] if c.get("tlist") is not None}) == 1 else "different")]
             try:
                 d = check_cubic(spec, solver=(i % 2 == 0))
             except Exception as e:
                 d = "harness/implementation raised " + type(e).__name__ + ": " + str(e)[:200]
-            res.case({"cubic": spec}, nontrivial=len({tuple(c["tlist"]) for c in spec["chans"]}) >= 2, tags=tags)
+            res.case({"cubic": spec}, nontrivial=len({tuple(c.get("tlist") or ()) for c in spec["chans"]}) >= 2, tags=tags)
             ncub += 1
             if d:
                 res.disagree({"cubic": spec}, "spline through the samples (make_interp_spline, degree min(3, n-1))", d, d,
@@ -1129,12 +1353,14 @@ class C14(PropertyCheck):
             try:
                 T = p.get_full_tlist()
                 C = p.get_full_coeffs()
-                for m, ch in enumerate(spec["chans"]):
-                    for kk, t in enumerate(T):
-                        sv = step_value(ch["tlist"], ch["coeff"], float(t))
-                        if abs(C[m][kk] - sv) > 1e-12:
-                            return True, (f"get_full_coeffs: channel {m} at t={float(t)!r} is {float(C[m][kk])!r}, its step "
-                                          f"function there is {sv!r}")
+                # the merged grid: every breakpoint of every channel is represented (up to rounding), nothing else
+                Tl = [float(t) for t in T]
+                if any(min(abs(g - t) for t in Tl) > 1e-9 for g in grid) or any(min(abs(g - t) for g in grid) > 0 for t in Tl) \
+                        or any(b - a <= 0 for a, b in zip(Tl[:-1], Tl[1:])):
+                    return True, f"get_full_tlist {Tl!r} does not represent the breakpoints {grid!r} of the channels"
+                d = coeffs_mismatch(spec, T, C)
+                if d:
+                    return True, d
                 U = np.eye(Uref.shape[0], dtype=complex)
                 for u in p.run_analytically():
                     U = u.full() @ U
@@ -1142,6 +1368,9 @@ class C14(PropertyCheck):
                 return True, f"implementation raised {type(e).__name__}: {e}"
             if np.abs(U - Uref).max() > 1e-9:
                 return True, f"run_analytically differs from the time-ordered product by {np.abs(U - Uref).max():.3e}"
+            d = solver_operator_mismatch(p, spec, T, drift_full, mats)
+            if d:
+                return True, d
             psi, v = init_state(spec)
             try:
                 fin, how, err = solver_final(p, psi, spec.get("dm"), T)
@@ -1151,7 +1380,24 @@ class C14(PropertyCheck):
             exp = np.outer(exp, exp.conj()) if spec.get("dm") else exp.reshape(-1, 1)
             if np.abs(fin - exp).max() > 2e-6:
                 return True, f"{how} differs from the time-ordered product by {np.abs(fin - exp).max():.3e}"
-            return False, "analytical propagators, resampled coefficients and solver agree with the time-ordered product"
+            # save / reload of the coefficients
+            dd = tempfile.mkdtemp(prefix="c14-")
+            try:
+                fn = os.path.join(dd, "c.txt")
+                try:
+                    p.save_coeff(fn)
+                    p2, _l, _d, _m = build_processor(spec)
+                    p2.read_coeff(fn)
+                    U2 = np.eye(Uref.shape[0], dtype=complex)
+                    for u in p2.run_analytically():
+                        U2 = u.full() @ U2
+                except Exception as e:
+                    return True, f"save_coeff / read_coeff / run_analytically after the reload raised {type(e).__name__}: {e}"
+                if np.abs(U2 - Uref).max() > 1e-9:
+                    return True, f"after save/reload run_analytically differs from the time-ordered product by {np.abs(U2 - Uref).max():.3e}"
+            finally:
+                shutil.rmtree(dd, ignore_errors=True)
+            return False, "analytical propagators, resampled coefficients, solver and save/reload agree with the time-ordered product"
         if kind == "reload-shape":
             spec = {"dims": [2], "seed": 3, "drift": None, "dm": False,
                     "chans": [{"targets": [0], "tlist": [0.0, 0.5, 1.25], "coeff": [0.5, -0.25]} for _ in range(w["npulses"])]}
@@ -1241,14 +1487,21 @@ class C14(PropertyCheck):
         f, d = self.oracle_replay(ctx, RUNSTATE_WITNESS)
         if f:
             yield RUNSTATE_WITNESS, d
-        for _ in range(12):
-            spec = make_spec(rng, last_zero=not flags()["zl"])    # unrepaired tree: non-zero last value excluded by hypothesis
+        for w in (ROUNDING_WITNESS, ROUNDING_WITNESS_2, CONST_WITNESS):
+            f, d = self.oracle_replay(ctx, w)
+            if f:
+                yield w, d
+        for i in range(16):
+            if i % 4 == 3:
+                spec = make_rounding_spec(rng)
+            else:                      # unrepaired tree: non-zero last value excluded by hypothesis
+                spec = make_spec(rng, last_zero=not flags()["zl"], const=(i % 4 == 2))
             w = {"kind": "evolution", "spec": spec}
             f, d = self.oracle_replay(ctx, w)
             if f:
                 yield w, d
         # cubic coefficients: deterministic family (2, 3, 4, 5 samples next to a finer channel) and random processors
-        for spec in cubic_family()[:4] + [make_cubic_spec(rng) for _ in range(4)]:
+        for spec in cubic_family()[:4] + [make_cubic_spec(rng, const=(i == 3)) for i in range(4)]:
             w = {"kind": "cubic", "spec": spec}
             f, d = self.oracle_replay(ctx, w)
             if f:
@@ -1257,13 +1510,35 @@ class C14(PropertyCheck):
     def oracle_search(self, ctx, budget_s):
         t0 = time.time()
         rng = ctx.rng
+        # systematic first: grids equal up to rounding (both orders of the two channels), constant channels of every shape
+        first = [ROUNDING_WITNESS, ROUNDING_WITNESS_2, CONST_WITNESS]
+        sw = dict(ROUNDING_WITNESS["spec"])
+        sw["chans"] = [dict(sw["chans"][1], targets=[0]), dict(sw["chans"][0], targets=[1])]
+        first.append({"kind": "evolution", "spec": sw})
+        for shape in CONST_SHAPES:
+            for val in (True, False):
+                for kind in ("evolution", "cubic"):
+                    base = {"dims": [2, 2], "seed": 21, "drift": {"targets": [0, 1]}, "dm": False,
+                            "chans": [{"targets": [0], "tlist": [0.0, 0.35, 0.8, 1.3], "coeff": [0.9, -1.3, 0.6] + ([0.0] if kind == "cubic" else [])},
+                                      {"targets": [1], "tlist": [0.0, 0.5, 1.3], "coeff": [-0.4, 1.2] + ([0.0] if kind == "cubic" else [])}]}
+                    if kind == "cubic":
+                        base["spline"] = "cubic"
+                        if shape == "ends-last" and not flags()["hold"]:
+                            continue
+                    first.append({"kind": kind, "spec": add_const_channel(rng, base, shape=shape, value=val)})
+        for w in first:
+            f, d = self.oracle_replay(ctx, w)
+            if f:
+                yield w, d
+        i = 0
         while time.time() - t0 < budget_s:
-            spec = make_spec(rng, last_zero=not flags()["zl"])
+            i += 1
+            spec = make_rounding_spec(rng) if i % 3 == 0 else make_spec(rng, last_zero=not flags()["zl"], const=(i % 3 == 1))
             w = {"kind": "evolution", "spec": spec}
             f, d = self.oracle_replay(ctx, w)
             if f:
                 yield w, d
-            w = {"kind": "cubic", "spec": make_cubic_spec(rng)}
+            w = {"kind": "cubic", "spec": make_cubic_spec(rng, const=(i % 2 == 0))}
             f, d = self.oracle_replay(ctx, w)
             if f:
                 yield w, d
